@@ -619,7 +619,7 @@ pub fn run(ctx: &Ctx) {
     ctx.assume("the clock: expected values for today/current-year are computed from chrono::Utc read before and after each evaluation; a case during which the date changes is skipped");
     ctx.assume("the default zone is UTC in this check");
     ctx.run_table(&Dates, "month-grid+month-names", month_grid(), true);
-    ctx.run_generated(&Dates, ctx.tier.pick(25_000, 1_000_000), case_strategy);
+    ctx.run_generated(&Dates, ctx.tier.pick(200_000, 2_000_000), case_strategy);
 }
 
 pub fn replay(w: &mut Worker, sub: &str, case: &serde_json::Value) -> Option<Verdict> {
